@@ -186,13 +186,19 @@ def gen_byte_cases(ctx):
         pool = ['a', '\u00e9', '\u20ac', '\U0001d11e', '\n', '\r', '\r\n', '"', ',', '#', '\ufeff']
         for _ in range(60):
             samples.append(''.join(rng.choice(pool) for _ in range(rng.randint(1, 4))))
+    # every token sequence with a BOM somewhere (first line, later lines, twice): the BOM is dropped on line 1 only
+    toks = ['\ufeff', 'a', '\n', '\r', '"', ',']
+    for n in range(1, 4 if ctx.tier == 'quick' else 5):
+        for t in itertools.product(toks, repeat=n):
+            if '\ufeff' in t:
+                samples.append(''.join(t))
     for s in samples:
         for encoding in ('utf-8', 'latin-1'):
             data = s.encode('utf-8')
             if len(data) > (10 if ctx.tier == 'quick' else 11):
                 continue
             text = data.decode(encoding)
-            sel = cfgs if ctx.tier == 'thorough' else [c for c in cfgs if c['comment'] == '#' or c['policy'] == 'quoted_rfc']
+            sel = cfgs if (ctx.tier == 'thorough' and len(data) <= 9) else [c for c in cfgs if (c['comment'] == '#') == (c['policy'] in ('simple', 'quoted_rfc')) and not c['header']]
             for c in sel:
                 cases.append(dict(c, kind='bytes_all', data=list(data), encoding=encoding, text=text, cs=rng.choice([None, 1, 2, 3])))
     inv = []
